@@ -347,6 +347,11 @@ class StreamReader:
             set_result(waiter, None)
 
     async def _wait(self, func_name: str) -> None:
+        # A reader woken without data (end of an HTTP chunk) comes back here; an
+        # exception set in between had no waiter to fail, so report it now
+        # instead of waiting for data that will never arrive.
+        if self._exception is not None:
+            raise self._exception
         if not self._protocol.connected:
             raise RuntimeError("Connection closed.")
 
